@@ -180,7 +180,7 @@ func verifPumpIteration() {
 		}
 		if conn.out.fail {
 			verifrt.Assert(returned, "send-error-ends-the-pump")
-			verifrt.Reach("send-failed-message-still-in-flight", w.inFlight == 1)
+			verifrt.Reach("sym:send-failed-message-still-in-flight", w.inFlight == 1)
 		}
 		verifrt.Reach("message-sent", !conn.out.fail && !exitEvent)
 	} else if waiting != nil {
